@@ -185,6 +185,7 @@ def cases(draw):
     if mode == "P" and draw(st.integers(0, 3)) > 0:
         img["transparency"] = draw(st.integers(0, 3))
     return {
+        "abort": draw(st.one_of(st.none(), st.none(), st.floats(0.0, 1.0, allow_nan=False))),
         "cols": cols, "lines": lines, "img": img, "alpha": alpha, "bg": bg, "kitty": kitty,
         "ident": draw(st.sampled_from(NON_KITTY)),
     }
@@ -295,6 +296,28 @@ def check_pixels(case, rec):
             outs = image._renderer(image._render_image, alpha, split_cells=True)
         except Exception as e:
             raise Violation(f"block render raised {type(e).__name__}: {e}", {"kind": "render_exception"})
+        # abort-then-reuse: a render of this very class is interrupted (Ctrl-C between two lines of the block renderer),
+        # afterwards the same render must come out exactly as before
+        if case.get("abort") is not None and cols * lines <= 60:
+            from ..faults import LineFault
+
+            with LineFault(("image/block.py",)) as dry:
+                image._renderer(image._render_image, alpha)
+            if dry.lines > 3:
+                k = 2 + int(case["abort"] * (dry.lines - 3))
+                lf = LineFault(("image/block.py",), k, KeyboardInterrupt)
+                try:
+                    with lf:
+                        image._renderer(image._render_image, alpha)
+                except KeyboardInterrupt:
+                    pass
+                if lf.fired:
+                    again = image._renderer(image._render_image, alpha)
+                    if again != out:
+                        raise Violation(f"after a render of the same image was interrupted (KeyboardInterrupt at line event {k} of "
+                                        f"{dry.lines} in the block renderer) the next render differs from the one before "
+                                        f"({again.count(chr(10)) + 1} lines vs {out.count(chr(10)) + 1})", {"clause": "abort_then_reuse"})
+                    rec.label("abort_then_reuse")
         # the public path: the same transparency setting written as a format specifier ("1.1" = padding that
         # is never larger than the render, i.e. none) must give the very same render
         aspec = alpha_spec(alpha)
